@@ -39,10 +39,10 @@ def model_check(chk):
     r = run_tlc("MapUnordered", cfg=dict(spec="Spec", constants=dict(base, FixTwins=False), invariants=INV, deadlock=False))
     chk.add_tlc("MapUnordered/switch-FixTwins=FALSE", r, expect_violation=True)
     r = run_tlc("MapUnordered", cfg=dict(spec="Spec", constants=dict(base, N=3, Retries=0, BatchSize=0, MinTasks=1, KeepPairing=False),
-                                         invariants=INV, deadlock=False))
+                                         invariants=["TwoSubmissions"], deadlock=False))
     chk.add_tlc("MapUnordered/switch-KeepPairing=FALSE", r, expect_violation="TwoSubmissions")
     r = run_tlc("MapUnordered", cfg=dict(spec="Spec", constants=dict(base, N=4, MinTasks=1, FixStartTimes=False),
-                                         invariants=INV, deadlock=False))
+                                         invariants=["NoCrash"], deadlock=False))
     chk.add_tlc("MapUnordered/switch-FixStartTimes=FALSE", r, expect_violation="NoCrash")
 
 
